@@ -185,6 +185,8 @@ def _concrete_binop(op, a, b):
         return a * b
     if op == "/":
         if b == 0:
+            if NP_FLOATS[0]:
+                return NAN
             raise PyRaise("ZeroDivisionError", "division by zero")
         return Fraction(a) / Fraction(b)
     if op == "//":
@@ -227,6 +229,7 @@ def _sym_pow(a, b):
     return Sym(t, "float")
 
 
+NP_FLOATS = [False]
 POW_TERMS = []  # (base, exponent, term): the interpreter turns these into axiom instances
 
 
